@@ -23,7 +23,7 @@ import (
 	"verif/harness/sm"
 )
 
-const ruleC07 = "concurrent programs: after a generated sequential setup (1-2 collections, 3-8 documents, optional indexes) 2-8 goroutines each issue 2-6 generated operations (Insert batches with supplied ids, UpdateById, bulk Update/UpdateFunc/Delete, DeleteById, CreateIndex, DropIndex, CreateCollection, DropCollection, FindAll, Count, FindById, ListCollections) on one handle over bbolt or badger; a store decorator consults a drawn bit vector before every store call and yields (Gosched) or sleeps up to 200 microseconds to perturb the schedule. The recorded call/return history with result digests must be linearizable with respect to the reference model (porcupine; a store conflict error is legal only as a no-op; a checker timeout is inconclusive, never a violation); a sequential epilogue (Count without criteria, full and index-ordered scans, catalogs) is part of every history, so drift left behind by a race is seen too. A second phase shares one *query.Query / Criteria between goroutines that derive queries from it concurrently. The same cases run in a -race build; any data-race report is a violation. An evaluation is one concurrent program; non-trivial when at least two operations overlapped in real time on the same collection and one of them was a write; distinct = distinct programs (setup, operations, schedule bits)."
+const ruleC07 = "concurrent programs: after a generated sequential setup (1-2 collections, 3-8 documents, optional indexes) 2-8 goroutines each issue 2-6 generated operations (Insert batches with supplied ids, UpdateById, bulk Update/UpdateFunc/Delete, DeleteById, CreateIndex, DropIndex, CreateCollection, DropCollection, FindAll, Count, FindById, ListCollections) on one handle over bbolt or badger; a store decorator consults a drawn bit vector before every store call and yields (Gosched) or sleeps up to 200 microseconds to perturb the schedule. The recorded call/return history with result digests must be linearizable with respect to the reference model (porcupine; a store conflict error is legal only as a no-op; a checker timeout is inconclusive, never a violation); a sequential epilogue (Count without criteria, full and index-ordered scans, catalogs) is part of every history, so drift left behind by a race is seen too. A second phase shares one *query.Query / Criteria between goroutines that derive queries from it concurrently. The same cases run in a -race build; any data-race report is a violation. A third part runs one writer issuing bulk Updates over a collection of 257-1100 documents against readers that export, scan and index-scan it: every single ExportCollection / FindAll result must show one generation for all documents. An evaluation is one concurrent program; non-trivial when at least two operations overlapped in real time on the same collection and one of them was a write; distinct = distinct programs (setup, operations, schedule bits)."
 
 type c07Op struct {
 	Client int         `json:"client"`
@@ -531,6 +531,177 @@ func concurrentCase(rt *rapid.T, owner string, kinds []string) (*c07History, str
 }
 
 func TestC07(t *testing.T) {
+	t.Run("histories", testC07Histories)
+	if os.Getenv("VERIF_RACE") == "" {
+		t.Run("snapshot-readers", testC07SnapshotReaders)
+	}
+}
+
+// c07Snap: one writer rewrites a field of every document of a large collection with bulk
+// Updates (generation 1, 2, ...) while readers export the collection, scan it and count it.
+// Every operation is atomic, so whatever a single ExportCollection / FindAll call returns
+// shows one generation for all documents, every document exactly once.
+type c07Snap struct {
+	Backend string `json:"backend"`
+	N       int    `json:"n"`
+	Rounds  int    `json:"rounds"`
+	Indexed bool   `json:"indexed"`
+	Bits    []byte `json:"bits"`
+}
+
+func runC07Snap(c *c07Snap) *sm.Fail {
+	bad := func(f string, a ...interface{}) *sm.Fail {
+		return &sm.Fail{Property: "C07", Clause: "snapshot-read", Detail: fmt.Sprintf("[%s, %d documents] ", c.Backend, c.N) + fmt.Sprintf(f, a...)}
+	}
+	s, err := sm.NewSession("C07", "c07snap", c.Backend)
+	if err != nil {
+		return &sm.Fail{Property: "C07", Clause: "harness", Detail: err.Error()}
+	}
+	defer s.Close()
+	setup := []cs.Op{{Kind: "createcoll", Coll: "E"}, {Kind: "geninsert", Coll: "E", Gen: &cs.GenSpec{First: 0, N: c.N, Mul: 1, Mod: 7}}}
+	if c.Indexed {
+		setup = append(setup, cs.Op{Kind: "createindex", Coll: "E", Field: "y"})
+	}
+	for _, op := range setup {
+		if f := s.Do(op); f != nil {
+			return f
+		}
+	}
+	var bitIdx int64
+	s.H.Deco.Yield = func() {
+		if len(c.Bits) == 0 {
+			return
+		}
+		i := atomic.AddInt64(&bitIdx, 1)
+		if c.Bits[int(i)%len(c.Bits)]&7 == 1 {
+			runtime.Gosched()
+		}
+	}
+	defer func() { s.H.Deco.Yield = nil }()
+	var wg sync.WaitGroup
+	done := make(chan struct{})
+	var werr atomic.Value
+	wg.Add(1)
+	go func() {
+		defer wg.Done()
+		defer close(done)
+		for g := 1; g <= c.Rounds; g++ {
+			out := run.Exec(s.H.DB, &cs.Op{Kind: "update", Q: &cs.Query{Coll: "E"}, UpdMap: map[string]cs.V{"gen": {X: int64(g)}}})
+			if out.Err != "" && !isConflict(out.Err) {
+				werr.Store(fmt.Sprintf("bulk Update to generation %d failed: %s", g, out.Err))
+				return
+			}
+		}
+	}()
+	oneGen := func(what string, docs []map[string]interface{}) *sm.Fail {
+		if len(docs) != c.N {
+			return bad("%s returned %d documents while only bulk Updates were running", what, len(docs))
+		}
+		gens := map[string]int{}
+		seen := map[string]bool{}
+		for _, d := range docs {
+			id, _ := d["_id"].(string)
+			if seen[id] {
+				return bad("%s returned document %q twice", what, id)
+			}
+			seen[id] = true
+			gens[fmt.Sprint(d["gen"])]++
+		}
+		if len(gens) > 1 {
+			return bad("%s shows a partially applied bulk Update: documents per generation %v", what, gens)
+		}
+		return nil
+	}
+	fails := make([]*sm.Fail, 3)
+	for r := 0; r < 3; r++ {
+		wg.Add(1)
+		go func(r int) {
+			defer wg.Done()
+			path := fmt.Sprintf("%s/export-%d.json", s.FilesDir(), r)
+			for i := 0; i < 40; i++ {
+				select {
+				case <-done:
+					if i > 2 {
+						return
+					}
+				default:
+				}
+				if r == 0 {
+					out := run.Exec(s.H.DB, &cs.Op{Kind: "export", Coll: "E", Path: path})
+					if out.Err != "" {
+						fails[r] = bad("ExportCollection failed: %s", out.Err)
+						return
+					}
+					b, err := os.ReadFile(path)
+					var docs []map[string]interface{}
+					if err == nil {
+						err = json.Unmarshal(b, &docs)
+					}
+					if err != nil {
+						fails[r] = bad("the exported file is unreadable: %v", err)
+						return
+					}
+					if fails[r] = oneGen("ExportCollection", docs); fails[r] != nil {
+						return
+					}
+					continue
+				}
+				q := &cs.Query{Coll: "E"}
+				if r == 2 && c.Indexed {
+					a := cs.Lit(int64(0))
+					q.Crit = &cs.Crit{Op: "gte", Field: "y", Arg: &a} // served by the index
+				}
+				out := run.Exec(s.H.DB, &cs.Op{Kind: "find", Q: q})
+				if out.Err != "" {
+					fails[r] = bad("FindAll failed: %s", out.Err)
+					return
+				}
+				docs := make([]map[string]interface{}, len(out.Docs))
+				for i, d := range out.Docs {
+					docs[i] = d
+				}
+				if fails[r] = oneGen("FindAll", docs); fails[r] != nil {
+					return
+				}
+			}
+		}(r)
+	}
+	wg.Wait()
+	if msg, _ := werr.Load().(string); msg != "" {
+		return bad("%s", msg)
+	}
+	for _, f := range fails {
+		if f != nil {
+			return f
+		}
+	}
+	return nil
+}
+
+func init() {
+	replayers["c07snap"] = func(raw json.RawMessage) *sm.Fail {
+		var c c07Snap
+		if err := json.Unmarshal(raw, &c); err != nil {
+			return &sm.Fail{Property: "C07", Clause: "replay", Detail: err.Error()}
+		}
+		return runC07Snap(&c)
+	}
+	registerSM("C07", "c07snapsetup", func(b string) (*sm.Session, error) { return sm.NewSession("C07", "c07snap", b) })
+}
+
+func testC07SnapshotReaders(t *testing.T) {
+	col := collector("C07", ruleC07)
+	check(t, "C07", cases(24, 600), 0, func(rt *rapid.T) {
+		c := &c07Snap{Backend: rapid.SampledFrom(raceBackends).Draw(rt, "backend"), N: rapid.SampledFrom([]int{300, 600, 257, 1100}).Draw(rt, "n"),
+			Rounds: rapid.IntRange(3, 8).Draw(rt, "rounds"), Indexed: rapid.Bool().Draw(rt, "indexed"), Bits: rapid.SliceOfN(rapid.Byte(), 8, 32).Draw(rt, "bits")}
+		if f := runC07Snap(c); f != nil {
+			violate(rt, "C07", "c07snap", c, f)
+		}
+		col.Case(true, hashOf(c), func() interface{} { return c }, "snapshot-readers", "backend:"+c.Backend)
+	})
+}
+
+func testC07Histories(t *testing.T) {
 	col := collector("C07", ruleC07)
 	race := os.Getenv("VERIF_RACE") != ""
 	n := cases(160, 6000)
@@ -556,6 +727,21 @@ func TestC07(t *testing.T) {
 		}
 		// shared query/criteria phase
 		sq := &cs.Query{Coll: "A", Crit: crit()}
+		if rapid.Bool().Draw(rt, "shared-in") {
+			// an In / Contains leaf whose operands are plain Go ints: the operand list belongs to the
+			// shared criteria object and must be left alone by the goroutines' queries
+			args := make([]cs.Operand, rapid.IntRange(1, 3).Draw(rt, "shared-in-n"))
+			for i := range args {
+				args[i] = cs.Operand{Kind: "lit", Lit: cs.V{X: int64(rapid.IntRange(-3, 9).Draw(rt, "shared-in-v"))},
+					GoKind: rapid.SampledFrom([]string{"int", "int8", "int32", "int16"}).Draw(rt, "shared-in-kind")}
+			}
+			leaf := &cs.Crit{Op: rapid.SampledFrom([]string{"in", "in", "contains"}).Draw(rt, "shared-in-op"), Field: "x", Args: args}
+			if sq.Crit == nil {
+				sq.Crit = leaf
+			} else {
+				sq.Crit = &cs.Crit{Op: "and", Sub: []*cs.Crit{sq.Crit, leaf}}
+			}
+		}
 		if rapid.Bool().Draw(rt, "shared-sorted") {
 			sq.SortSet = true
 			sq.Sort = []cs.SortOpt{{Field: "u", Dir: 1}}
